@@ -42,6 +42,10 @@ def cases(tier, rng, boost=1):
             t += [0, 1] * brng.randint(2, 5)
             t += [brng.randrange(2, nbig) for _ in range(30)]
         yield _mk([t], [1, 3], nts_big, src='corpus', kind='big_flipflop')
+    # strongly metastable two- and three-state models: the second eigenvalue is real and within 1e-5 of 1 (but not within rounding of it) — the timescale
+    # must be the large positive number -tau / ln(lambda), not NaN
+    yield _mk([[0] * 250000 + [1] * 250000 + [0] * 250000], [1, 2], None, src='corpus', kind='metastable')
+    yield _mk([[0] * 120000 + [1] * 150000 + [2] * 90000 + [1] * 100000 + [0] * 110000], [1], 1, src='corpus', kind='metastable')
     n = {'quick': 250, 'thorough': 4000, 'search': 800}[tier] * boost
     for _ in range(n):
         kind = rng.choice(['chain', 'chain', 'alternating', 'cycle', 'periodic', 'reducible', 'lumped', 'solver'])
